@@ -87,8 +87,9 @@ def messageSet (crc : Bytes → Nat) (nowMs : Int) (ms : List Message) (offset :
 
 /-! ## the version a produce / fetch request is sent with -/
 
-/-- the client implements versions 0, 1 and 2 of Produce and Fetch; a higher advertised version is
-    answered with 2 -/
+/-- the REQUEST layouts the encoders write: versions 0, 1 and 2 of Produce and Fetch (a version-1
+    request has the layout of version 0); a higher version is written as 2.  This is about requests
+    only: REPLIES of version 1 are not implemented (`replyImplemented`). -/
 def implementedVersion (requested : Int) : Option Int :=
   if requested < 0 then none else if requested ≥ 2 then some 2 else some requested
 
@@ -188,11 +189,35 @@ def assignment (version : Int) (asg : List (Option Bytes × List Int)) (userData
 
 /-! ## version choice -/
 
+/-- the versions of Produce and Fetch the client implements in BOTH directions: 0 and 2.
+    `decode_fetch_response(api_version=1)` raises `UnboundLocalError` on every input and
+    `decode_produce_response(api_version=1)` reads the version-2 layout, which a version-1 reply does
+    not have (`C04_reply_v1_not_implemented`). -/
+def replyImplemented (version : Int) : Bool := version = 0 || version = 2
+
 /-- the version found in a produce / fetch request header is one the broker advertised for that API
     and one the client implements -/
 def versionChosenOk (table : List ApiVersion) (key : Int) (headerVersion : Int) : Bool :=
-  (0 ≤ headerVersion && headerVersion ≤ 2) &&
+  replyImplemented headerVersion &&
   table.any (fun v => v.apiKey = key && v.minVersion ≤ headerVersion && headerVersion ≤ v.maxVersion)
+
+/-- the property's quantifier: the table's (first) entry for the API advertises `min ≤ 0` and `max ≥ 2`.
+    A table whose entry has `max = 1`, `min > 0`, or that has no entry for the API is outside it. -/
+def inQuantifier (table : List ApiVersion) (key : Int) : Bool :=
+  match table.filter (fun v => v.apiKey = key) with
+  | v :: _ => v.minVersion ≤ 0 && 2 ≤ v.maxVersion
+  | [] => false
+
+/-- message format 1 exists from Produce v2 on: a request older than that carries format-0 messages only -/
+def formatOk (headerVersion : Int) (magics : List Int) : Bool :=
+  2 ≤ headerVersion || magics.all (· = 0)
+
+/-- the verdict on one produce / fetch frame written after a successful discovery: header version
+    advertised and implemented, message format fitting the version; tables outside the quantifier
+    are not judged -/
+def versionVerdict (table : List ApiVersion) (key : Int) (headerVersion : Int) (magics : List Int) : Verdict :=
+  if !inQuantifier table key then .outOfRange
+  else if versionChosenOk table key headerVersion && formatOk headerVersion magics then .ok else .fail
 
 /-- after a failed discovery (or an error code) requests carry version 0 and message format 0 -/
 def fallbackOk (headerVersion : Int) (magics : List Int) : Bool :=
